@@ -105,5 +105,14 @@ func runC02() {
 				c02Scenario(s, i, after, extra, r.Fork())
 			}
 		}
+		// transactions with a pre-history (failed statements, lost rollbacks, a resolver that met them before): c02hist.go
+		nHist := 3
+		if run.Thorough() {
+			nHist = 1
+		}
+		for i := 0; i < nHist; i++ {
+			historyScenario(r.Fork())
+			rec.Count("c02:family:history")
+		}
 	}
 }
